@@ -1,11 +1,17 @@
 import OdxVerif.Proofs.AtomicRT
 import OdxVerif.Proofs.BytesRT
+import OdxVerif.Proofs.TextRT16
+import OdxVerif.Proofs.BcdRT
 import OdxVerif.Model.Decode
 /-! First composite proof tier ("flat"): explicitly or implicitly positioned VALUE parameters over standard-length
-    types — `A_INT32` in its four encodings, `A_UINT32` unencoded, `A_FLOAT64`, `A_BYTEFIELD` (whole bytes).
+    types — `A_INT32` in its four encodings, `A_UINT32` unencoded, `A_FLOAT64`, `A_BYTEFIELD` (whole bytes),
+    `A_ASCIISTRING` (ISO-8859-1), `A_FLOAT32` (values exactly representable in binary32), `A_UTF8STRING` (UTF-8).
     The monadic `encodeParam` / `decodeParam` of the model reduce to the pure steps `encStep` / `decStep`.
-    Everything downstream uses only the interface `Obj.raw / ofRaw / inRange / canon` with `Obj.raw_spec` and
-    `Obj.canon_spec`. -/
+    Everything downstream uses only the interface `Obj.raw / ofRaw / inRange / canon / decodes` with `Obj.raw_spec`,
+    `Obj.canon_spec`, `Obj.raw_decodes` and `Obj.canon_decodes`. (`decodes`: the decoder of the float32 and string
+    kinds is partial — NaN / subnormal patterns are outside the model's exact float conversion, ill-formed text is a
+    `DecodeError` — so the bridging lemmas of the decoding side carry the hypothesis that the pattern read decodes; it
+    is `True` for the kinds with a total decoder and follows from the round trip / from canonicity elsewhere.) -/
 namespace OdxVerif.Codec
 open OdxVerif.Bits OdxVerif.OdxM
 
@@ -16,6 +22,10 @@ inductive Kind where
   | float64    -- A_FLOAT64: the value is its IEEE-754 binary64 bit pattern
   | bytes      -- A_BYTEFIELD of BIT-LENGTH / 8 bytes
   | ascii      -- A_ASCIISTRING (ISO-8859-1, the default encoding) of BIT-LENGTH / 8 characters
+  | float32    -- A_FLOAT32: the value is the binary64 pattern of a number that is exactly a normal binary32 number, ±0 or ±inf
+  | utf8       -- A_UTF8STRING (UTF-8, the default encoding): code points whose encoding has BIT-LENGTH / 8 bytes
+  | unicode2   -- A_UNICODE2STRING (UCS-2 = UTF-16, the default encoding; high-low byte order = UTF-16BE), BIT-LENGTH / 8 bytes
+  | bcd        -- A_UINT32 with BASE-TYPE-ENCODING BCD-P (a decimal digit per nibble) or BCD-UP (per byte)
 deriving Repr, DecidableEq, Inhabited
 
 /-- an explicitly or implicitly positioned VALUE parameter with a standard-length type and the identical compu
@@ -36,6 +46,13 @@ def Obj.bt (o : Obj) : BaseType :=
   | .float64 => .float64
   | .bytes => .bytefield
   | .ascii => .ascii
+  | .float32 => .float32
+  | .utf8 => .utf8
+  | .unicode2 => .unicode2
+  | .bcd => .uint32
+
+/-- bits per decimal digit of a BCD object -/
+def Obj.bcdShift (o : Obj) : Nat := if o.enc = some .bcdp then 4 else 8
 
 def Obj.toParam (o : Obj) : Param :=
   .mk o.name o.bytePos o.bitPos (.value (.simple (.std o.bt o.enc o.hl o.bl none false) o.bt .identical) none)
@@ -47,6 +64,10 @@ def Obj.encOk (o : Obj) : Prop :=
   | .float64 => o.enc = none ∨ o.enc = some .none_
   | .bytes => o.enc = none ∨ o.enc = some .none_
   | .ascii => o.enc = none ∨ o.enc = some .iso1
+  | .float32 => o.enc = none ∨ o.enc = some .none_
+  | .utf8 => o.enc = none ∨ o.enc = some .utf8
+  | .unicode2 => o.enc = none ∨ o.enc = some .ucs2
+  | .bcd => o.enc = some .bcdp ∨ o.enc = some .bcdup
 
 /-- the sizes the kind admits: integers up to 64 bits (the limit of the bitstruct module), floats exactly 64,
     byte fields whole bytes (the byte order flag is immaterial for them: `bytefield_hl_irrelevant`; the objects
@@ -58,6 +79,10 @@ def Obj.sizeOk (o : Obj) : Prop :=
   | .float64 => o.bl = 64
   | .bytes => o.bl % 8 = 0 ∧ o.hl = true
   | .ascii => o.bl % 8 = 0 ∧ o.hl = true
+  | .float32 => o.bl = 32
+  | .utf8 => o.bl % 8 = 0 ∧ o.hl = true
+  | .unicode2 => o.bl % 8 = 0 ∧ o.hl = true
+  | .bcd => o.bl ≤ 64
 
 def Obj.ok (o : Obj) : Prop := o.encOk ∧ 1 ≤ o.bl ∧ o.sizeOk
 def Obj.isInt (o : Obj) : Prop := o.kind = .int32 ∨ o.kind = .uint32
@@ -73,6 +98,10 @@ def Obj.raw (o : Obj) (v : IVal) : Nat :=
   | .float64, .flt b => b
   | .bytes, .bytes b => ofBytesBE b
   | .ascii, .str cps => ofBytesBE cps
+  | .float32, .flt b => (Text.f64to32? b).getD 0
+  | .utf8, .str cps => ofBytesBE ((Text.encode .utf8 cps).getD [])
+  | .unicode2, .str cps => ofBytesBE ((Text.encode .utf16be cps).getD [])
+  | .bcd, .int i => bcdEnc o.bcdShift i.toNat i.toNat
   | _, _ => 0
 
 /-- the internal value of a `bl`-bit pattern -/
@@ -83,8 +112,14 @@ def Obj.ofRaw (o : Obj) (r : Nat) : IVal :=
   | .float64 => .flt r
   | .bytes => .bytes (toBytesBE ((o.bl + 7) / 8) (r * 2 ^ ((8 - o.bl % 8) % 8)))
   | .ascii => .str (toBytesBE ((o.bl + 7) / 8) (r * 2 ^ ((8 - o.bl % 8) % 8)))
+  | .float32 => .flt ((Text.f32to64? r).getD 0)
+  | .utf8 => .str ((Text.decode .utf8 (toBytesBE ((o.bl + 7) / 8) (r * 2 ^ ((8 - o.bl % 8) % 8)))).getD [])
+  | .unicode2 => .str ((Text.decode .utf16be (toBytesBE ((o.bl + 7) / 8) (r * 2 ^ ((8 - o.bl % 8) % 8)))).getD [])
+  | .bcd => .int (bcdDec o.bcdShift r r)
 
-/-- the internal values the object can represent -/
+/-- the internal values the object can represent (float32: binary64 patterns of numbers that are exactly binary32
+    normal numbers, zeros or infinities — the part of `float → binary32` the model follows; UTF-8: code point lists
+    the encoder accepts and whose encoding fills the object exactly) -/
 def Obj.inRange (o : Obj) (v : IVal) : Prop :=
   match o.kind, v with
   | .int32, .int i => int32InRange o.enc o.bl i
@@ -92,6 +127,10 @@ def Obj.inRange (o : Obj) (v : IVal) : Prop :=
   | .float64, .flt b => b < 2 ^ o.bl
   | .bytes, .bytes b => 8 * b.length = o.bl ∧ AllBytes b
   | .ascii, .str cps => 8 * cps.length = o.bl ∧ AllBytes cps
+  | .float32, .flt b => b < 2 ^ 64 ∧ (Text.f64to32? b).isSome = true
+  | .utf8, .str cps => ∃ bs, Text.encode .utf8 cps = some bs ∧ 8 * bs.length = o.bl
+  | .unicode2, .str cps => ∃ bs, Text.encode .utf16be cps = some bs ∧ 8 * bs.length = o.bl
+  | .bcd, .int i => 0 ≤ i ∧ bcdEnc o.bcdShift i.toNat i.toNat < 2 ^ o.bl
   | _, _ => False
 
 /-- Boolean version of `inRange` -/
@@ -102,17 +141,44 @@ def Obj.accepts (o : Obj) (v : IVal) : Bool :=
   | .float64, .flt b => decide (b < 2 ^ o.bl)
   | .bytes, .bytes b => decide (8 * b.length = o.bl) && b.all (fun x => decide (x < 256))
   | .ascii, .str cps => decide (8 * cps.length = o.bl) && cps.all (fun x => decide (x < 256))
+  | .float32, .flt b => decide (b < 2 ^ 64) && (Text.f64to32? b).isSome
+  | .utf8, .str cps => match Text.encode .utf8 cps with
+    | some bs => decide (8 * bs.length = o.bl)
+    | none => false
+  | .unicode2, .str cps => match Text.encode .utf16be cps with
+    | some bs => decide (8 * bs.length = o.bl)
+    | none => false
+  | .bcd, .int i => decide (0 ≤ i) && decide (bcdEnc o.bcdShift i.toNat i.toNat < 2 ^ o.bl)
   | _, _ => false
 
-/-- the bit patterns that are the representation of some value (all but "negative zero") -/
+/-- the bit patterns the (strict) decoder turns into a value: all of them for the integer, binary64, byte-field and
+    ISO-8859-1 kinds; binary32 patterns of normal numbers, zeros and infinities (the model's exact conversion); well-formed
+    UTF-8 (shortest forms, no surrogates) -/
+def Obj.decodes (o : Obj) (r : Nat) : Prop :=
+  match o.kind with
+  | .float32 => (Text.f32to64? r).isSome = true
+  | .utf8 => (Text.decode .utf8 (toBytesBE ((o.bl + 7) / 8) (r * 2 ^ ((8 - o.bl % 8) % 8)))).isSome = true
+  | .unicode2 => (Text.decode .utf16be (toBytesBE ((o.bl + 7) / 8) (r * 2 ^ ((8 - o.bl % 8) % 8)))).isSome = true
+  | _ => True
+
+/-- the bit patterns that are the representation of some value (all but "negative zero"; for the kinds with a partial
+    decoder: the patterns that decode) -/
 def Obj.canon (o : Obj) (r : Nat) : Prop :=
   match o.kind with
   | .int32 => canonRaw o.enc o.bl r
+  | .float32 => r < 2 ^ o.bl ∧ (Text.f32to64? r).isSome = true
+  | .utf8 => r < 2 ^ o.bl ∧ (Text.decode .utf8 (toBytesBE ((o.bl + 7) / 8) (r * 2 ^ ((8 - o.bl % 8) % 8)))).isSome = true
+  | .unicode2 => r < 2 ^ o.bl ∧ (Text.decode .utf16be (toBytesBE ((o.bl + 7) / 8) (r * 2 ^ ((8 - o.bl % 8) % 8)))).isSome = true
+  | .bcd => r < 2 ^ o.bl ∧ bcdEnc o.bcdShift (bcdDec o.bcdShift r r) (bcdDec o.bcdShift r r) = r     -- every group is a decimal digit
   | _ => r < 2 ^ o.bl
 
 theorem Obj.accepts_iff (o : Obj) (ho : o.ok) (v : IVal) : o.accepts v = true ↔ o.inRange v := by
   unfold Obj.accepts Obj.inRange
   cases o.kind <;> cases v <;> simp [rangeOk_iff o.enc o.bl ho.2.1, AllBytes]
+  · rename_i cps
+    cases Text.encode .utf8 cps <;> simp
+  · rename_i cps
+    cases Text.encode .utf16be cps <;> simp
 
 theorem Obj.raw_spec (o : Obj) (ho : o.ok) (v : IVal) (hr : o.inRange v) :
     o.raw v < 2 ^ o.bl ∧ o.ofRaw (o.raw v) = v := by
@@ -148,12 +214,43 @@ theorem Obj.raw_spec (o : Obj) (ho : o.ok) (v : IVal) (hr : o.inRange v) :
     have e1 : (o.bl + 7) / 8 = b.length := by omega
     have e2 : (8 - o.bl % 8) % 8 = 0 := by omega
     rw [e1, e2, Nat.pow_zero, Nat.mul_one, toBytesBE_ofBytesBE b hall]
+  · rename_i b
+    obtain ⟨hb64, hsome⟩ := hr
+    obtain ⟨r, hr'⟩ := Option.isSome_iff_exists.mp hsome
+    obtain ⟨h1, h2⟩ := Text.f32to64_f64to32 b r hb64 hr'
+    rw [hr', Option.getD_some, h2, Option.getD_some, hsz]
+    exact ⟨h1, rfl⟩
+  · rename_i cps
+    obtain ⟨bs, henc, hlen⟩ := hr
+    obtain ⟨hall, hdec⟩ := Text.utf8_decode_encode cps bs henc
+    have hlt := ofBytesBE_lt bs hall
+    rw [pow256, hlen] at hlt
+    rw [henc, Option.getD_some]
+    refine ⟨hlt, ?_⟩
+    have e1 : (o.bl + 7) / 8 = bs.length := by omega
+    have e2 : (8 - o.bl % 8) % 8 = 0 := by omega
+    rw [e1, e2, Nat.pow_zero, Nat.mul_one, toBytesBE_ofBytesBE bs hall, hdec, Option.getD_some]
+  · rename_i cps
+    obtain ⟨bs, henc, hlen⟩ := hr
+    obtain ⟨hall, hdec⟩ := Text.utf16be_decode_encode cps bs henc
+    have hlt := ofBytesBE_lt bs hall
+    rw [pow256, hlen] at hlt
+    rw [henc, Option.getD_some]
+    refine ⟨hlt, ?_⟩
+    have e1 : (o.bl + 7) / 8 = bs.length := by omega
+    have e2 : (8 - o.bl % 8) % 8 = 0 := by omega
+    rw [e1, e2, Nat.pow_zero, Nat.mul_one, toBytesBE_ofBytesBE bs hall, hdec, Option.getD_some]
+  · rename_i i
+    have hs : o.bcdShift = 4 ∨ o.bcdShift = 8 := by unfold Obj.bcdShift; split <;> simp
+    refine ⟨hr.2, ?_⟩
+    rw [bcd_roundtrip _ hs]
+    congr 1
+    omega
 
 theorem Obj.canon_lt (o : Obj) (r : Nat) (hc : o.canon r) : r < 2 ^ o.bl := by
   unfold Obj.canon at hc
   cases hkind : o.kind <;> simp only [hkind] at hc
-  · exact hc.1
-  all_goals exact hc
+  all_goals first | exact hc | exact hc.1
 
 theorem Obj.canon_spec (o : Obj) (ho : o.ok) (r : Nat) (hc : o.canon r) :
     o.inRange (o.ofRaw r) ∧ o.raw (o.ofRaw r) = r := by
@@ -182,6 +279,75 @@ theorem Obj.canon_spec (o : Obj) (ho : o.ok) (r : Nat) (hc : o.canon r) :
     rw [pow256]
     have : 8 * ((o.bl + 7) / 8) = o.bl := by omega
     rw [this]; exact hc
+  · obtain ⟨hlt, hsome⟩ := hc
+    obtain ⟨b, hb⟩ := Option.isSome_iff_exists.mp hsome
+    rw [hsz] at hlt
+    obtain ⟨h1, h2⟩ := Text.f64to32_f32to64 r b hlt hb
+    rw [hb, Option.getD_some, h2, Option.getD_some]
+    exact ⟨⟨h1, rfl⟩, rfl⟩
+  · obtain ⟨hlt, hsome⟩ := hc
+    obtain ⟨cps, hcps⟩ := Option.isSome_iff_exists.mp hsome
+    have e2 : (8 - o.bl % 8) % 8 = 0 := by omega
+    rw [e2, Nat.pow_zero, Nat.mul_one] at hcps ⊢
+    have henc := Text.utf8_encode_decode _ cps hcps
+    rw [hcps, Option.getD_some, henc, Option.getD_some]
+    refine ⟨⟨_, rfl, by rw [toBytesBE_length]; omega⟩, ?_⟩
+    apply ofBytesBE_toBytesBE_of_lt
+    rw [pow256]
+    have : 8 * ((o.bl + 7) / 8) = o.bl := by omega
+    rw [this]; exact hlt
+  · obtain ⟨hlt, hsome⟩ := hc
+    obtain ⟨cps, hcps⟩ := Option.isSome_iff_exists.mp hsome
+    have e2 : (8 - o.bl % 8) % 8 = 0 := by omega
+    rw [e2, Nat.pow_zero, Nat.mul_one] at hcps ⊢
+    have henc := Text.utf16be_encode_decode _ cps (toBytesBE_allBytes _ _) hcps
+    rw [hcps, Option.getD_some, henc, Option.getD_some]
+    refine ⟨⟨_, rfl, by rw [toBytesBE_length]; omega⟩, ?_⟩
+    apply ofBytesBE_toBytesBE_of_lt
+    rw [pow256]
+    have : 8 * ((o.bl + 7) / 8) = o.bl := by omega
+    rw [this]; exact hlt
+  · simp only [Int.toNat_natCast]
+    exact ⟨⟨Int.natCast_nonneg _, by rw [hc.2]; exact hc.1⟩, hc.2⟩
+
+/-- the representation of a value decodes -/
+theorem Obj.raw_decodes (o : Obj) (ho : o.ok) (v : IVal) (hr : o.inRange v) : o.decodes (o.raw v) := by
+  obtain ⟨hk, hbl, hsz⟩ := ho
+  unfold Obj.inRange at hr
+  unfold Obj.decodes Obj.raw
+  unfold Obj.sizeOk at hsz
+  cases hkind : o.kind <;> cases v <;> simp only [hkind] at hr hsz ⊢
+  · rename_i b
+    obtain ⟨hb64, hsome⟩ := hr
+    obtain ⟨r, hr'⟩ := Option.isSome_iff_exists.mp hsome
+    obtain ⟨h1, h2⟩ := Text.f32to64_f64to32 b r hb64 hr'
+    rw [hr', Option.getD_some, h2]; rfl
+  · rename_i cps
+    obtain ⟨bs, henc, hlen⟩ := hr
+    obtain ⟨hall, hdec⟩ := Text.utf8_decode_encode cps bs henc
+    have e1 : (o.bl + 7) / 8 = bs.length := by omega
+    have e2 : (8 - o.bl % 8) % 8 = 0 := by omega
+    rw [henc, Option.getD_some, e1, e2, Nat.pow_zero, Nat.mul_one, toBytesBE_ofBytesBE bs hall, hdec]; rfl
+  · rename_i cps
+    obtain ⟨bs, henc, hlen⟩ := hr
+    obtain ⟨hall, hdec⟩ := Text.utf16be_decode_encode cps bs henc
+    have e1 : (o.bl + 7) / 8 = bs.length := by omega
+    have e2 : (8 - o.bl % 8) % 8 = 0 := by omega
+    rw [henc, Option.getD_some, e1, e2, Nat.pow_zero, Nat.mul_one, toBytesBE_ofBytesBE bs hall, hdec]; rfl
+
+/-- a canonical pattern decodes -/
+theorem Obj.canon_decodes (o : Obj) (r : Nat) (hc : o.canon r) : o.decodes r := by
+  unfold Obj.canon at hc
+  unfold Obj.decodes
+  cases hkind : o.kind <;> simp only [hkind] at hc ⊢
+  · exact hc.2
+  · exact hc.2
+  · exact hc.2
+
+/-- the integer kinds (and every other kind but float32 / the strings with a multi-byte encoding) decode every pattern -/
+theorem Obj.decodes_of_int (o : Obj) (h : o.isInt) (r : Nat) : o.decodes r := by
+  unfold Obj.decodes
+  rcases h with h | h <;> simp only [h]
 
 theorem flatten_singletons (cs : List Nat) : (cs.map fun c => [c]).flatten = cs := by
   induction cs with
@@ -226,6 +392,20 @@ theorem rawOfUInt32_ok (enc : Option Enc) (he : enc = none ∨ enc = some .none_
   have hneg : ¬ (i < 0) := by omega
   have hnat : i.natAbs = i.toNat := by omega
   rcases he with rfl | rfl <;>
+    simp [rawOfUInt32, bind, pure, run_bind, run_ite, run_pure, hneg, hbit, hnat]
+
+/-- raw representation of an `A_UINT32` value with a BCD encoding whose BCD form fits the bit length -/
+theorem rawOfUInt32_bcd_ok (enc : Option Enc) (he : enc = some .bcdp ∨ enc = some .bcdup) (bl : Nat) (i : Int) (h0 : 0 ≤ i)
+    (h1 : bcdEnc (if enc = some .bcdp then 4 else 8) i.toNat i.toNat < 2 ^ bl) (s : EncState) :
+    rawOfUInt32 enc bl i s true = .ok (bcdEnc (if enc = some .bcdp then 4 else 8) i.toNat i.toNat, s) := by
+  have hneg : ¬ (i < 0) := by omega
+  have hnat : i.natAbs = i.toNat := by omega
+  rcases he with rfl | rfl
+  · simp only [if_true] at h1 ⊢
+    have hbit : ¬ (bl < bitLength (bcdEnc 4 i.toNat i.toNat)) := Nat.not_lt.mpr ((bitLength_le_iff _ _).mpr h1)
+    simp [rawOfUInt32, bind, pure, run_bind, run_ite, run_pure, hneg, hbit, hnat]
+  · simp only [Option.some.injEq, reduceCtorEq, if_false] at h1 ⊢
+    have hbit : ¬ (bl < bitLength (bcdEnc 8 i.toNat i.toNat)) := Nat.not_lt.mpr ((bitLength_le_iff _ _).mpr h1)
     simp [rawOfUInt32, bind, pure, run_bind, run_ite, run_pure, hneg, hbit, hnat]
 
 theorem encodeParam_obj (o : Obj) (ho : o.ok) (v : IVal) (hr : o.inRange v) (fuel : Nat) (s : EncState) :
@@ -289,6 +469,53 @@ theorem encodeParam_obj (o : Obj) (ho : o.ok) (v : IVal) (hr : o.inRange v) (fue
         BaseType.isNumeric, odxassert, he, hfit1, hfit2, hsub, hb0, hm8, hge, hmask, hhl]
       cases hb : o.bytePos <;>
         simp [encStep, Obj.raw, hkind, Obj.pos, Obj.k, Obj.bp, Obj.mask, ord, toBytesBE_length, hhl, hb]
+  · rename_i b
+    obtain ⟨hb64, hsome⟩ := hr
+    obtain ⟨r, hr'⟩ := Option.isSome_iff_exists.mp hsome
+    rw [hr', Option.getD_some] at hge
+    have hmask32 : ∀ bp, ¬ (256 ^ ((32 + bp + 7) / 8) ≤ (2 ^ 32 - 1) * 2 ^ bp) := by rw [← hsz]; exact hmask
+    have hge32 : ¬ (2 ^ 32 ≤ r) := by rw [← hsz]; exact hge
+    rcases hk with he | he <;>
+    · simp [Obj.toParam, Obj.bt, hkind, encodeParam, encodeDop, encodeDct, typeAdmits, emplaceAtomic, emplaceBytes, bind, pure,
+        run_ite, run_bind, run_pure, run_getS, run_setS, run_modifyS, run_raise, BaseType.isNumeric, odxassert, he, hsz,
+        hge32, hmask32, hr']
+      cases hh : o.hl <;> cases hb : o.bytePos <;>
+        simp [encStep, Obj.raw, hkind, Obj.pos, Obj.k, Obj.bp, Obj.mask, ord, toBytesBE_length, hh, hb, hsz, hr']
+  · rename_i cps
+    obtain ⟨bs, henc, hlen⟩ := hr
+    obtain ⟨hm8, hhl⟩ := hsz
+    rw [henc, Option.getD_some] at hge
+    have hfit1 : ¬ (o.bl < 8 * bs.length) := by omega
+    have hfit2 : ¬ (8 * bs.length < o.bl) := by omega
+    have hsub : 8 * bs.length - o.bl = 0 := by omega
+    rcases hk with he | he <;>
+    · simp [Obj.toParam, Obj.bt, hkind, encodeParam, encodeDop, encodeDct, typeAdmits, emplaceAtomic, emplaceBytes, fitBytes,
+        stringCodec, henc, bind, pure, run_ite, run_bind, run_pure, run_getS, run_setS, run_modifyS, run_raise,
+        BaseType.isNumeric, odxassert, he, hfit1, hfit2, hsub, hb0, hm8, hge, hmask, hhl]
+      cases hb : o.bytePos <;>
+        simp [encStep, Obj.raw, hkind, Obj.pos, Obj.k, Obj.bp, Obj.mask, ord, toBytesBE_length, hhl, hb, henc]
+  · rename_i cps
+    obtain ⟨bs, henc, hlen⟩ := hr
+    obtain ⟨hm8, hhl⟩ := hsz
+    rw [henc, Option.getD_some] at hge
+    have hfit1 : ¬ (o.bl < 8 * bs.length) := by omega
+    have hfit2 : ¬ (8 * bs.length < o.bl) := by omega
+    have hsub : 8 * bs.length - o.bl = 0 := by omega
+    rcases hk with he | he <;>
+    · simp [Obj.toParam, Obj.bt, hkind, encodeParam, encodeDop, encodeDct, typeAdmits, emplaceAtomic, emplaceBytes, fitBytes,
+        stringCodec, henc, bind, pure, run_ite, run_bind, run_pure, run_getS, run_setS, run_modifyS, run_raise,
+        BaseType.isNumeric, odxassert, he, hfit1, hfit2, hsub, hb0, hm8, hge, hmask, hhl]
+      cases hb : o.bytePos <;>
+        simp [encStep, Obj.raw, hkind, Obj.pos, Obj.k, Obj.bp, Obj.mask, ord, toBytesBE_length, hhl, hb, henc]
+  · rename_i i
+    have h64 : ¬ (64 < o.bl) := by omega
+    have hraw := rawOfUInt32_bcd_ok o.enc hk o.bl i hr.1 hr.2
+    unfold Obj.bcdShift at hge
+    simp [Obj.toParam, Obj.bt, hkind, encodeParam, encodeDop, encodeDct, typeAdmits, emplaceAtomic, emplaceBytes, bind, pure,
+      run_ite, run_bind, run_pure, run_getS, run_setS, run_modifyS, run_raise, BaseType.isNumeric,
+      hraw, hb0, hge, hmask, h64]
+    cases hh : o.hl <;> cases hb : o.bytePos <;>
+      simp [encStep, Obj.raw, Obj.bcdShift, hkind, Obj.pos, Obj.k, Obj.bp, Obj.mask, ord, toBytesBE_length, hh, hb]
 
 /-- the decoder's effect for one object -/
 def decStep (o : Obj) (d : DecState) : IVal × DecState :=
@@ -296,15 +523,22 @@ def decStep (o : Obj) (d : DecState) : IVal × DecState :=
   (o.ofRaw (readNum d.msg pos o.k o.hl / 2 ^ o.bp % 2 ^ o.bl),
    { d with cursorByte := pos + o.k, cursorBit := 0 })
 
+/-- what the decoder needs of the message at the object's place: the object's bytes are there and the pattern decodes -/
+def Obj.fitsIn (o : Obj) (d : DecState) : Prop :=
+  o.pos d.origin d.cursorByte + o.k ≤ d.msg.length ∧
+  o.decodes (readNum d.msg (o.pos d.origin d.cursorByte) o.k o.hl / 2 ^ o.bp % 2 ^ o.bl)
+
 theorem decodeParam_obj (o : Obj) (ho : o.ok) (fuel : Nat) (d : DecState)
-    (hlen : o.pos d.origin d.cursorByte + o.k ≤ d.msg.length) :
+    (hlen : o.pos d.origin d.cursorByte + o.k ≤ d.msg.length)
+    (hdec : o.decodes (readNum d.msg (o.pos d.origin d.cursorByte) o.k o.hl / 2 ^ o.bp % 2 ^ o.bl)) :
     decodeParam (fuel + 2) o.toParam d true = .ok (.atom (decStep o d).1, (decStep o d).2) := by
   obtain ⟨hk, hbl, hsz⟩ := ho
   have hb0 : o.bl ≠ 0 := by omega
   unfold Obj.encOk at hk
   unfold Obj.sizeOk at hsz
   unfold Obj.pos Obj.k Obj.bp at hlen
-  cases hkind : o.kind <;> simp only [hkind] at hk hsz
+  unfold Obj.decodes Obj.pos Obj.k Obj.bp at hdec
+  cases hkind : o.kind <;> simp only [hkind] at hk hsz hdec
   · have h64 : ¬ (64 < o.bl) := by omega
     unfold int32Known at hk
     simp only [Bool.or_eq_true, decide_eq_true_eq] at hk
@@ -351,6 +585,48 @@ theorem decodeParam_obj (o : Obj) (ho : o.ok) (fuel : Nat) (d : DecState)
         simp [Obj.toParam, Obj.bt, Obj.ofRaw, hkind, decodeParam, decodeDop, decodeDct, extractAtomic, extractCore, convertRaw,
           stringCodec, Text.decode, bind, pure, run_bind, run_pure, run_getS, run_modifyS, run_ite, run_raise, BaseType.isNumeric, odxassert, hb0, hnl,
           he, hb, hm8, hhl, decStep, Obj.pos, Obj.k, Obj.bp]
+  · cases hb : o.bytePos <;> simp only [hb, hsz] at hlen hdec
+    all_goals
+      have hnl : ¬ (d.msg.length < _ + (32 + o.bitPos.getD 0 + 7) / 8) := Nat.not_lt.mpr hlen
+      obtain ⟨b64, hb64⟩ := Option.isSome_iff_exists.mp hdec
+      rcases hk with he | he
+      all_goals
+        simp [Obj.toParam, Obj.bt, Obj.ofRaw, hkind, decodeParam, decodeDop, decodeDct, extractAtomic, extractCore, convertRaw,
+          bind, pure, run_bind, run_pure, run_getS, run_modifyS, run_ite, run_raise, BaseType.isNumeric, odxassert, hsz, hnl,
+          he, hb, decStep, Obj.pos, Obj.k, Obj.bp, hb64]
+  · obtain ⟨hm8, hhl⟩ := hsz
+    have e2 : (8 - o.bl % 8) % 8 = 0 := by omega
+    rw [e2, Nat.pow_zero, Nat.mul_one, hhl] at hdec
+    cases hb : o.bytePos <;> simp only [hb] at hlen hdec
+    all_goals
+      have hnl : ¬ (d.msg.length < _ + (o.bl + o.bitPos.getD 0 + 7) / 8) := Nat.not_lt.mpr hlen
+      obtain ⟨cps, hcps⟩ := Option.isSome_iff_exists.mp hdec
+      rcases hk with he | he
+      all_goals
+        simp [Obj.toParam, Obj.bt, Obj.ofRaw, hkind, decodeParam, decodeDop, decodeDct, extractAtomic, extractCore, convertRaw,
+          stringCodec, bind, pure, run_bind, run_pure, run_getS, run_modifyS, run_ite, run_raise, BaseType.isNumeric, odxassert, hb0, hnl,
+          he, hb, hm8, hhl, decStep, Obj.pos, Obj.k, Obj.bp, hcps]
+  · obtain ⟨hm8, hhl⟩ := hsz
+    have e2 : (8 - o.bl % 8) % 8 = 0 := by omega
+    rw [e2, Nat.pow_zero, Nat.mul_one, hhl] at hdec
+    cases hb : o.bytePos <;> simp only [hb] at hlen hdec
+    all_goals
+      have hnl : ¬ (d.msg.length < _ + (o.bl + o.bitPos.getD 0 + 7) / 8) := Nat.not_lt.mpr hlen
+      obtain ⟨cps, hcps⟩ := Option.isSome_iff_exists.mp hdec
+      rcases hk with he | he
+      all_goals
+        simp [Obj.toParam, Obj.bt, Obj.ofRaw, hkind, decodeParam, decodeDop, decodeDct, extractAtomic, extractCore, convertRaw,
+          stringCodec, bind, pure, run_bind, run_pure, run_getS, run_modifyS, run_ite, run_raise, BaseType.isNumeric, odxassert, hb0, hnl,
+          he, hb, hm8, hhl, decStep, Obj.pos, Obj.k, Obj.bp, hcps]
+  · have h64 : ¬ (64 < o.bl) := by omega
+    cases hb : o.bytePos <;> simp only [hb] at hlen
+    all_goals
+      have hnl : ¬ (d.msg.length < _ + (o.bl + o.bitPos.getD 0 + 7) / 8) := Nat.not_lt.mpr hlen
+      rcases hk with he | he
+      all_goals
+        simp [Obj.toParam, Obj.bt, Obj.ofRaw, Obj.bcdShift, hkind, decodeParam, decodeDop, decodeDct, extractAtomic, extractCore, convertRaw,
+          uint32OfRaw, bind, pure, run_bind, run_pure, run_getS, run_modifyS, run_ite, run_raise, BaseType.isNumeric, hb0, hnl,
+          he, hb, h64, decStep, Obj.pos, Obj.k, Obj.bp]
 
 /-- the byte-order flag of a byte field is immaterial (only numeric objects are byte-swapped) -/
 theorem bytefield_hl_irrelevant (enc : Option Enc) (hl : Bool) (bl : Nat) (m : Option Nat) (c : Bool) (v : IVal) :
@@ -433,17 +709,67 @@ theorem encodeParam_const_obj (o : Obj) (ho : o.ok) (v : IVal) (hr : o.inRange v
         hfit1, hfit2, hsub, hb0, hm8, hge, hmask, hhl]
       cases hb : o.bytePos <;>
         simp [encStep, Obj.raw, hkind, Obj.pos, Obj.k, Obj.bp, Obj.mask, ord, toBytesBE_length, hhl, hb]
+  · rename_i b
+    obtain ⟨hb64, hsome⟩ := hr
+    obtain ⟨r, hr'⟩ := Option.isSome_iff_exists.mp hsome
+    rw [hr', Option.getD_some] at hge
+    have hmask32 : ∀ bp, ¬ (256 ^ ((32 + bp + 7) / 8) ≤ (2 ^ 32 - 1) * 2 ^ bp) := by rw [← hsz]; exact hmask
+    have hge32 : ¬ (2 ^ 32 ≤ r) := by rw [← hsz]; exact hge
+    rcases hk with he | he <;> rcases hpv with rfl | rfl <;>
+    · simp [Obj.toConstParam, Obj.bt, hkind, encodeParam, encodeDct, emplaceAtomic, emplaceBytes, bind, pure,
+        run_ite, run_bind, run_pure, run_getS, run_setS, run_modifyS, run_raise, BaseType.isNumeric, odxassert, he, hsz,
+        hge32, hmask32, hr']
+      cases hh : o.hl <;> cases hb : o.bytePos <;>
+        simp [encStep, Obj.raw, hkind, Obj.pos, Obj.k, Obj.bp, Obj.mask, ord, toBytesBE_length, hh, hb, hsz, hr']
+  · rename_i cps
+    obtain ⟨bs, henc, hlen⟩ := hr
+    obtain ⟨hm8, hhl⟩ := hsz
+    rw [henc, Option.getD_some] at hge
+    have hfit1 : ¬ (o.bl < 8 * bs.length) := by omega
+    have hfit2 : ¬ (8 * bs.length < o.bl) := by omega
+    have hsub : 8 * bs.length - o.bl = 0 := by omega
+    rcases hk with he | he <;> rcases hpv with rfl | rfl <;>
+    · simp [Obj.toConstParam, Obj.bt, hkind, encodeParam, encodeDct, emplaceAtomic, emplaceBytes, fitBytes,
+        stringCodec, henc, bind, pure, run_ite, run_bind, run_pure, run_getS, run_setS, run_modifyS, run_raise, BaseType.isNumeric, odxassert, he,
+        hfit1, hfit2, hsub, hb0, hm8, hge, hmask, hhl]
+      cases hb : o.bytePos <;>
+        simp [encStep, Obj.raw, hkind, Obj.pos, Obj.k, Obj.bp, Obj.mask, ord, toBytesBE_length, hhl, hb, henc]
+  · rename_i cps
+    obtain ⟨bs, henc, hlen⟩ := hr
+    obtain ⟨hm8, hhl⟩ := hsz
+    rw [henc, Option.getD_some] at hge
+    have hfit1 : ¬ (o.bl < 8 * bs.length) := by omega
+    have hfit2 : ¬ (8 * bs.length < o.bl) := by omega
+    have hsub : 8 * bs.length - o.bl = 0 := by omega
+    rcases hk with he | he <;> rcases hpv with rfl | rfl <;>
+    · simp [Obj.toConstParam, Obj.bt, hkind, encodeParam, encodeDct, emplaceAtomic, emplaceBytes, fitBytes,
+        stringCodec, henc, bind, pure, run_ite, run_bind, run_pure, run_getS, run_setS, run_modifyS, run_raise, BaseType.isNumeric, odxassert, he,
+        hfit1, hfit2, hsub, hb0, hm8, hge, hmask, hhl]
+      cases hb : o.bytePos <;>
+        simp [encStep, Obj.raw, hkind, Obj.pos, Obj.k, Obj.bp, Obj.mask, ord, toBytesBE_length, hhl, hb, henc]
+  · rename_i i
+    have h64 : ¬ (64 < o.bl) := by omega
+    have hraw := rawOfUInt32_bcd_ok o.enc hk o.bl i hr.1 hr.2
+    unfold Obj.bcdShift at hge
+    rcases hpv with rfl | rfl <;>
+    · simp [Obj.toConstParam, Obj.bt, hkind, encodeParam, encodeDct, emplaceAtomic, emplaceBytes, bind, pure,
+        run_ite, run_bind, run_pure, run_getS, run_setS, run_modifyS, run_raise, BaseType.isNumeric,
+        hraw, hb0, hge, hmask, h64]
+      cases hh : o.hl <;> cases hb : o.bytePos <;>
+        simp [encStep, Obj.raw, Obj.bcdShift, hkind, Obj.pos, Obj.k, Obj.bp, Obj.mask, ord, toBytesBE_length, hh, hb]
 
 /-- decoding a CODED-CONST parameter returns what is on the wire (a mismatch with the constant is only warned about) -/
 theorem decodeParam_const_obj (o : Obj) (ho : o.ok) (v : IVal) (fuel : Nat) (d : DecState)
-    (hlen : o.pos d.origin d.cursorByte + o.k ≤ d.msg.length) :
+    (hlen : o.pos d.origin d.cursorByte + o.k ≤ d.msg.length)
+    (hdec : o.decodes (readNum d.msg (o.pos d.origin d.cursorByte) o.k o.hl / 2 ^ o.bp % 2 ^ o.bl)) :
     decodeParam (fuel + 1) (o.toConstParam v) d true = .ok (.atom (decStep o d).1, (decStep o d).2) := by
   obtain ⟨hk, hbl, hsz⟩ := ho
   have hb0 : o.bl ≠ 0 := by omega
   unfold Obj.encOk at hk
   unfold Obj.sizeOk at hsz
   unfold Obj.pos Obj.k Obj.bp at hlen
-  cases hkind : o.kind <;> simp only [hkind] at hk hsz
+  unfold Obj.decodes Obj.pos Obj.k Obj.bp at hdec
+  cases hkind : o.kind <;> simp only [hkind] at hk hsz hdec
   · have h64 : ¬ (64 < o.bl) := by omega
     unfold int32Known at hk
     simp only [Bool.or_eq_true, decide_eq_true_eq] at hk
@@ -490,5 +816,47 @@ theorem decodeParam_const_obj (o : Obj) (ho : o.ok) (v : IVal) (fuel : Nat) (d :
         simp [Obj.toConstParam, Obj.bt, Obj.ofRaw, hkind, decodeParam, decodeDct, extractAtomic, extractCore, convertRaw,
           stringCodec, Text.decode, bind, pure, run_bind, run_pure, run_getS, run_modifyS, run_ite, run_raise, BaseType.isNumeric, odxassert, hb0, hnl,
           he, hb, hm8, hhl, decStep, Obj.pos, Obj.k, Obj.bp]
+  · cases hb : o.bytePos <;> simp only [hb, hsz] at hlen hdec
+    all_goals
+      have hnl : ¬ (d.msg.length < _ + (32 + o.bitPos.getD 0 + 7) / 8) := Nat.not_lt.mpr hlen
+      obtain ⟨b64, hb64⟩ := Option.isSome_iff_exists.mp hdec
+      rcases hk with he | he
+      all_goals
+        simp [Obj.toConstParam, Obj.bt, Obj.ofRaw, hkind, decodeParam, decodeDct, extractAtomic, extractCore, convertRaw,
+          bind, pure, run_bind, run_pure, run_getS, run_modifyS, run_ite, run_raise, BaseType.isNumeric, odxassert, hsz, hnl,
+          he, hb, decStep, Obj.pos, Obj.k, Obj.bp, hb64]
+  · obtain ⟨hm8, hhl⟩ := hsz
+    have e2 : (8 - o.bl % 8) % 8 = 0 := by omega
+    rw [e2, Nat.pow_zero, Nat.mul_one, hhl] at hdec
+    cases hb : o.bytePos <;> simp only [hb] at hlen hdec
+    all_goals
+      have hnl : ¬ (d.msg.length < _ + (o.bl + o.bitPos.getD 0 + 7) / 8) := Nat.not_lt.mpr hlen
+      obtain ⟨cps, hcps⟩ := Option.isSome_iff_exists.mp hdec
+      rcases hk with he | he
+      all_goals
+        simp [Obj.toConstParam, Obj.bt, Obj.ofRaw, hkind, decodeParam, decodeDct, extractAtomic, extractCore, convertRaw,
+          stringCodec, bind, pure, run_bind, run_pure, run_getS, run_modifyS, run_ite, run_raise, BaseType.isNumeric, odxassert, hb0, hnl,
+          he, hb, hm8, hhl, decStep, Obj.pos, Obj.k, Obj.bp, hcps]
+  · obtain ⟨hm8, hhl⟩ := hsz
+    have e2 : (8 - o.bl % 8) % 8 = 0 := by omega
+    rw [e2, Nat.pow_zero, Nat.mul_one, hhl] at hdec
+    cases hb : o.bytePos <;> simp only [hb] at hlen hdec
+    all_goals
+      have hnl : ¬ (d.msg.length < _ + (o.bl + o.bitPos.getD 0 + 7) / 8) := Nat.not_lt.mpr hlen
+      obtain ⟨cps, hcps⟩ := Option.isSome_iff_exists.mp hdec
+      rcases hk with he | he
+      all_goals
+        simp [Obj.toConstParam, Obj.bt, Obj.ofRaw, hkind, decodeParam, decodeDct, extractAtomic, extractCore, convertRaw,
+          stringCodec, bind, pure, run_bind, run_pure, run_getS, run_modifyS, run_ite, run_raise, BaseType.isNumeric, odxassert, hb0, hnl,
+          he, hb, hm8, hhl, decStep, Obj.pos, Obj.k, Obj.bp, hcps]
+  · have h64 : ¬ (64 < o.bl) := by omega
+    cases hb : o.bytePos <;> simp only [hb] at hlen
+    all_goals
+      have hnl : ¬ (d.msg.length < _ + (o.bl + o.bitPos.getD 0 + 7) / 8) := Nat.not_lt.mpr hlen
+      rcases hk with he | he
+      all_goals
+        simp [Obj.toConstParam, Obj.bt, Obj.ofRaw, Obj.bcdShift, hkind, decodeParam, decodeDct, extractAtomic, extractCore, convertRaw,
+          uint32OfRaw, bind, pure, run_bind, run_pure, run_getS, run_modifyS, run_ite, run_raise, BaseType.isNumeric, hb0, hnl,
+          he, hb, h64, decStep, Obj.pos, Obj.k, Obj.bp]
 
 end OdxVerif.Codec
